@@ -22,26 +22,26 @@ func init() { register("C16", "model_checking", runC16) }
 // C16Case is one request to the join-server with everything the independent
 // device / network-server model needs to judge the answer.
 type C16Case struct {
-	Kind      int // 0 join-request, 1 rejoin 0, 2 rejoin 1, 3 rejoin 2
-	NwkKey    []byte
-	AppKey    []byte
-	DevEUI    [8]byte
-	Known     bool // the join-server has keys for DevEUI
-	JoinEUI   [8]byte
-	Nonce     uint16 // DevNonce / RJCount
-	NetID     [3]byte
-	DevAddr   uint32
-	DL        byte // DLSettings byte (bit 7 = OptNeg)
-	RxDelay   int
-	CFList    []byte
+	Kind    int // 0 join-request, 1 rejoin 0, 2 rejoin 1, 3 rejoin 2
+	NwkKey  []byte
+	AppKey  []byte
+	DevEUI  [8]byte
+	Known   bool // the join-server has keys for DevEUI
+	JoinEUI [8]byte
+	Nonce   uint16 // DevNonce / RJCount
+	NetID   [3]byte
+	DevAddr uint32
+	DL      byte // DLSettings byte (bit 7 = OptNeg)
+	RxDelay int
+	CFList  []byte
 	// CFListSpelling selects how an absent CFList is written in the JSON body: "" = member
 	// omitted, "null" = "CFList":null, "empty" = "CFList":"" (all three mean: no CFList)
 	CFListSpelling string
-	JoinNonce int
-	NSKEK     []byte // nil = no KEK for the network server
-	ASKEK     []byte
-	MICFlip   int // -1 correct MIC, else the bit to flip
-	TxID      uint32
+	JoinNonce      int
+	NSKEK          []byte // nil = no KEK for the network server
+	ASKEK          []byte
+	MICFlip        int // -1 correct MIC, else the bit to flip
+	TxID           uint32
 }
 
 var (
